@@ -8,6 +8,9 @@ import (
 	"github.com/daeuniverse/outbound/pool"
 	obbytes "github.com/daeuniverse/outbound/pool/bytes"
 
+	"github.com/daeuniverse/dae/common/consts"
+	"github.com/daeuniverse/dae/component/routing"
+	"github.com/daeuniverse/dae/pkg/config_parser"
 	"github.com/daeuniverse/dae/pkg/trie"
 	vs "github.com/daeuniverse/dae/zz_vs"
 )
@@ -111,4 +114,64 @@ func Verif_C12_single_prefix() {
 	k := cidrToBpfLpmKey(p)
 	vs.Assert("kernel key length", int(k.PrefixLen) == eff)
 	vs.Assert("kernel key containment", c12KeyCovers(k, probe) == want)
+}
+
+// Verif_C12_dedup: two address conditions in one program whose prefix sets look alike to a careless
+// comparison - the same numeric length and the same 16-byte form but different families, the same
+// covered addresses written in the two families, equal sets, the two default routes. The builder may
+// store equal sets once, but each rule must still cover exactly the addresses its own prefix covers:
+// for an arbitrary destination (all 128 bits symbolic, either family) the first rule whose prefix
+// contains it decides.
+func Verif_C12_dedup() {
+	c12WarmPool()
+	consts.MaxMatchSetLen = 32 // sizes the (unused) domain matcher tables; keeps BuildUserspace short
+	m4 := func(a, b, c, d byte) netip.Addr { // the IPv4-mapped IPv6 literal of a.b.c.d
+		return netip.AddrFrom16([16]byte{0, 0, 0, 0, 0, 0, 0, 0, 0, 0, 0xff, 0xff, a, b, c, d})
+	}
+	v4 := func(a, b, c, d byte) netip.Addr { return netip.AddrFrom4([4]byte{a, b, c, d}) }
+	pairs := [][2]netip.Prefix{
+		{netip.PrefixFrom(v4(10, 0, 0, 0), 8), netip.PrefixFrom(m4(10, 0, 0, 0), 8)},   // same bits value, same 16 bytes, different family: really ::/8
+		{netip.PrefixFrom(v4(10, 0, 0, 0), 8), netip.PrefixFrom(m4(10, 0, 0, 0), 104)}, // the same addresses in the two forms
+		{netip.PrefixFrom(v4(10, 0, 0, 0), 8), netip.PrefixFrom(v4(10, 0, 0, 0), 8)},   // equal sets
+		{netip.PrefixFrom(v4(0, 0, 0, 0), 0), netip.PrefixFrom(netip.IPv6Unspecified(), 0)},
+		{netip.PrefixFrom(netip.IPv6Unspecified(), 96), netip.PrefixFrom(v4(0, 0, 0, 0), 0)},
+	}
+	pr := pairs[vs.Choice("pair", len(pairs))]
+	b := &RoutingMatcherBuilder{outboundName2Id: map[string]uint8{"direct": uint8(consts.OutboundDirect), "g": 2, "h": 3},
+		lpmDedup: map[uint64]lpmDedupEntry{}, referencedOutbounds: map[string]struct{}{}}
+	f := &config_parser.Function{Name: consts.Function_Ip}
+	vs.Assert("first rule compiles", b.addIp(f, []netip.Prefix{pr[0]}, &routing.Outbound{Name: "g"}) == nil)
+	vs.Assert("second rule compiles", b.addIp(f, []netip.Prefix{pr[1]}, &routing.Outbound{Name: "h"}) == nil)
+	vs.Assert("fallback compiles", b.addFallback("direct") == nil)
+	m, err := b.BuildUserspace()
+	vs.Assert("matcher builds", err == nil)
+	cp := &ControlPlane{}
+	cp.routingMatcher = m
+	probe := c12Arr16("probe")
+	dst := netip.AddrPortFrom(netip.AddrFrom16(probe), 443)
+	if vs.Choice("probe.is4", 2) == 1 {
+		for i := 0; i < 10; i++ {
+			probe[i] = 0
+		}
+		probe[10], probe[11] = 0xff, 0xff
+		dst = netip.AddrPortFrom(netip.AddrFrom4([4]byte{probe[12], probe[13], probe[14], probe[15]}), 443)
+	}
+	form := func(p netip.Prefix) ([16]byte, int) {
+		if p.Addr().Is4() {
+			return p.Addr().As16(), p.Bits() + 96
+		}
+		return p.Addr().As16(), p.Bits()
+	}
+	a0, e0 := form(pr[0])
+	a1, e1 := form(pr[1])
+	want := uint64(consts.OutboundDirect)
+	if c12Covers(a1, e1, probe) {
+		want = 3
+	}
+	if c12Covers(a0, e0, probe) {
+		want = 2
+	}
+	ob, _, _, err := cp.Route(netip.MustParseAddrPort("192.168.1.2:5555"), dst, "", consts.L4ProtoType_TCP, &bpfRoutingResult{})
+	vs.Assert("routing succeeds", err == nil)
+	vs.Assert("each rule covers exactly the addresses of its own prefix set", uint64(ob) == want)
 }
